@@ -17,8 +17,10 @@ REPO_DIR = os.environ.get("VERIF_REPO_DIR", "/repo")
 KNOWN_FILE = os.path.join(VERIF_DIR, "KNOWN_FINDINGS.txt")
 
 
-class HarnessError(Exception):
-    """Raised for bugs of the harness itself (exit code 2, never a VIOLATION)."""
+class HarnessError(BaseException):
+    """Raised for bugs of the harness itself (exit code 2, never a VIOLATION).
+    Derives from BaseException so that the broad ``except Exception`` handlers which turn library
+    exceptions into observable values can never swallow it."""
 
 
 def canon(obj) -> str:
@@ -235,7 +237,7 @@ def shrink(case, still_fails, budget: int = 400):
             ok = False
             try:
                 ok = bool(still_fails(cand))
-            except Exception:
+            except (Exception, HarnessError):
                 ok = False
             if ok:
                 best = cand
